@@ -39,6 +39,9 @@ def solution_check(program, built, solver, prims, leaves, job):
     for leaf in leaves:
         view = ref.View(program, leaf)
         sol = analysis.solve_under_pins(solver, prims, leaf)
+        if isinstance(sol, analysis.Raised):
+            out.append(analysis.raised_violation(program, leaf, sol))
+            continue
         if not sol:
             bad("admitted-leaf-not-returned", leaf)
             continue
